@@ -81,7 +81,7 @@ func genNode(t *rapid.T) NodeCase {
 			n.Signature = s
 		}
 	case "file":
-		n.Path = "\\" + strings.Join(rapid.SliceOfN(rapid.StringMatching(`[A-Za-z0-9_\-\.]{1,12}`), 1, 4).Draw(t, "path"), "\\")
+		n.Path = "\\" + strings.Join(rapid.SliceOfN(rapid.StringMatching(`[A-Za-z0-9_\-\.%$ ]{1,12}`), 1, 4).Draw(t, "path"), "\\")
 		if rapid.IntRange(0, 5).Draw(t, "unicodepath") == 0 {
 			n.Path += "\\" + strings.ReplaceAll(gen.UnicodeString(12).Draw(t, "upath"), "\x00", "")
 		}
